@@ -3,7 +3,7 @@ import math
 from props.util import *
 from common import run_harness
 
-rule = ("composites BB, SLOW, ATR, MACD, PPO, KC, CE, CCI with periods 1..5 (tuples) and sampled larger, multipliers {0,0.5,2,1e3}: each "
+rule = ("composites BB, SLOW, ATR, MACD, PPO, KC, CE, CCI with periods 1..5 (tuples) and sampled larger, multipliers {2,-1.5,0,0.5,1e3} in rotation: each "
         "composite is run on a scalar and/or bar stream (walk / free / grid / ties, length 3n+20) and, in the same run, its public "
         "building blocks (SMA, SD, EMA, TR, FastStochastic, Minimum, Maximum, MAD, ATR) are constructed separately and fed by the "
         "driver exactly as documented (second-stage EMAs are fed the first-stage outputs in a second harness pass; the remaining + - * / "
@@ -30,7 +30,7 @@ def gen_cases(ctx):
             grid += params_grid(ind, [14, 40])[:3]
         for gi, pr in enumerate(grid):
             if ind in HAS_MULT:
-                pr = pr[:3] + (r.choice([0.0, 0.5, 2.0, 1e3]),)
+                pr = pr[:3] + ([2.0, -1.5, 0.0, 0.5, 1e3][gi % 5],)   # deterministic rotation incl. a negative multiplier
             p = max(pr[0], pr[1], pr[2], 1)
             n = 3 * p + 20
             modes = ["b"] if ind in ("CE", "CCI") else (["n", "b"] if ind in ("SLOW", "ATR", "KC") else ["n"])
